@@ -46,6 +46,65 @@ pub fn after_break_rule(run: &Run) -> Option<(&'static str, String, Path)> {
     None
 }
 
+/// Rule 5: a conversion error of a field-level `try_from` is reported by the derived container itself
+/// (at the field's position). When that report is answered Break, the container returns at once
+/// whatever the answer to the following hand-over is: nothing further inside the container is
+/// examined, reported or called.
+pub fn field_conversion_stop_rule(reg: &Registry, s: &dyn Subject, payload: &vcore::Ov, run: &Run) -> Option<(&'static str, String, Path)> {
+    // with duplicate keys the same location is legitimately visited twice: locations do not identify
+    // container instances there, so the rule is only applied to payloads with unique keys
+    if !unique_keys(payload) {
+        return None;
+    }
+    for (i, e) in run.events.iter().enumerate() {
+        let Event::Report(r) = e else { continue };
+        if r.cont || r.loc.is_empty() || !matches!(r.kind, monitor::RKind::Foreign { .. }) {
+            continue;
+        }
+        let parent = &r.loc[..r.loc.len() - 1];
+        let vcore::Step::Key(k) = &r.loc[r.loc.len() - 1] else { continue };
+        // is the field at this position converted with try_from by the container at `parent`?
+        let Some(pty) = ty_at(&reg.defs, s.ty(), payload, parent) else { continue };
+        let refmodel::Ty::Named(n) = crate::bodies::strip(&pty) else { continue };
+        let fields: Vec<refmodel::FieldDef> = match reg.defs.0.get(n) {
+            Some(refmodel::Def::Struct(sd)) => sd.fields.clone(),
+            Some(refmodel::Def::Enum(ed)) => ed.variants.iter().filter_map(|v| v.fields.clone()).flatten().collect(),
+            _ => continue,
+        };
+        if !fields.iter().any(|f| !f.skip && f.key == *k && matches!(f.conv, refmodel::Conv::TryFrom(_))) {
+            continue;
+        }
+        for later in &run.events[i + 1..] {
+            let loc: Option<Path> = match later {
+                Event::Examine { node } | Event::IterSeq { node } | Event::IterMap { node } => run.nodes.get(*node as usize).map(|n| n.path.clone()),
+                Event::Report(r2) => Some(r2.loc.clone()),
+                Event::Call { loc, .. } => loc.clone(),
+                _ => None,
+            };
+            if let Some(l) = loc {
+                let inside = l.len() > parent.len() && is_prefix(parent, &l);
+                let at_container = l.len() == parent.len() && is_prefix(parent, &l) && matches!(later, Event::Report(_) | Event::Call { .. });
+                if inside || at_container {
+                    return Some((
+                        "container-continues-after-stopped-conversion-error",
+                        format!("the conversion error of field {:?} was answered Break (d{}), yet the container at {:?} went on: `{}`", k, r.decision, render_path(parent), later.short()),
+                        parent.to_vec(),
+                    ));
+                }
+            }
+        }
+    }
+    None
+}
+
+fn unique_keys(p: &vcore::Ov) -> bool {
+    match p {
+        vcore::Ov::Seq(v) => v.iter().all(unique_keys),
+        vcore::Ov::Map(m) => m.iter().enumerate().all(|(i, (k, v))| !m[..i].iter().any(|(kk, _)| kk == k) && unique_keys(v)),
+        _ => true,
+    }
+}
+
 fn check_k(s: &dyn Subject, tk: &Run, t_k: &Run, k: u32) -> Option<(&'static str, String, Path)> {
     // position of decision k in the keep-going trace
     let pos_k = tk.events.iter().position(|e| decision_of(e).map(|d| d.0) == Some(k));
@@ -168,6 +227,9 @@ pub fn run(ctx: &Ctx, reg: &Registry) -> i32 {
                         if let Some(f) = after_break_rule(&t_k) {
                             fail(&mut acc, script.clone(), &t_k, f);
                         }
+                        if let Some(f) = field_conversion_stop_rule(reg, s, &case.payload, &t_k) {
+                            fail(&mut acc, script.clone(), &t_k, f);
+                        }
                         if k == 0 && nd > 0 {
                             // 3. always-stop error = first report of the keep-going run
                             let first = tk.reports().next().map(|r| r.id);
@@ -190,6 +252,9 @@ pub fn run(ctx: &Ctx, reg: &Registry) -> i32 {
                         account(&mut acc, s, &case, &r);
                         acc.count("random_scripts_checked");
                         if let Some(f) = after_break_rule(&r) {
+                            fail(&mut acc, script.clone(), &r, f);
+                        }
+                        if let Some(f) = field_conversion_stop_rule(reg, s, &case.payload, &r) {
                             fail(&mut acc, script, &r, f);
                         }
                     }
@@ -203,7 +268,7 @@ pub fn run(ctx: &Ctx, reg: &Registry) -> i32 {
         acc,
         Finish {
             level: "fault_enumeration",
-            rule: "for every generated payload: the keep-going run T_K, then BreakFrom(k) for EVERY k in 0..=decisions(T_K) (both value sources). Checked per k: events before decision k identical to T_K; after decision k only hand-overs of the very error returned by the previous decision, each at an ancestor-or-self location, no examine/iterate/call/report; the call returns that error; k=0 returns exactly the first report of T_K (and JsonError fails too). For random answer scripts: every Break answer is followed by the hand-over of that error and nothing else. Non-trivial = the keep-going run made at least one report; distinct = (subject, fault signature, trace shape).".into(),
+            rule: "for every generated payload: the keep-going run T_K, then BreakFrom(k) for EVERY k in 0..=decisions(T_K) (both value sources). Checked per k: events before decision k identical to T_K; after decision k only hand-overs of the very error returned by the previous decision, each at an ancestor-or-self location, no examine/iterate/call/report; the call returns that error; k=0 returns exactly the first report of T_K (and JsonError fails too). For random answer scripts (3/4 and 1/2 Continue, i.e. answers that switch back from Break to Continue): every Break answer is followed by the hand-over of that error and nothing else; a field-level try_from conversion error answered Break ends the derived container whatever the next hand-over is answered. Non-trivial = the keep-going run made at least one report; distinct = (subject, fault signature, trace shape).".into(),
             exhaustive: false,
             assumptions: vec!["every Break position of every generated case is enumerated; the cases themselves are sampled".into()],
         },
